@@ -216,7 +216,7 @@ class CSVWriter(rbql_engine.RBQLOutputWriter):
 
     def check_separator_in_fields_after_join(self, output_line, num_fields_expected):
         num_fields_calculated = output_line.count(self.delim) + 1
-        if num_fields_calculated != num_fields_expected:
+        if num_fields_expected and num_fields_calculated != num_fields_expected:
             self.delim_in_simple_output = True
 
 
